@@ -300,8 +300,12 @@ Definition init (relay : bool) : sys := mkSys (sh0 relay) [].
            7 expire 8 relay 9 checker) with message id b and flag c
      op 1: run thread a until its program counter is at a schedule point whose class bit is
            set in mask b, or the thread is done (fuel 64)
+     op 2 / op 3: as op 0 / op 1 but without an observation (steps the implementation performs
+           concurrently in the background; observed together afterwards);  op 4: observation only
    observable, after every op:  stop-class (0 = done, -1 = not enabled / no such thread) state
-     #inbound #outbound pending stopCh-closes callbacks stoppedExchanges
+     #inbound #outbound pending stopCh-closes stoppedExchanges
+   (the number of OnCloseStateChange callbacks is not compared: when two checkExchanges run
+   concurrently in the implementation it depends on their interleaving)
    then at the end: the error frames (id, code) in queue order, and the outcome of every thread. *)
 Definition pc_class (p : pc) : Z :=
   match p with
@@ -334,7 +338,7 @@ Fixpoint run_to (fuel : nat) (s : sys) (tid : nat) (mask : Z) (first : bool) : s
 
 Definition obs_of (s : sys) (code : Z) : list Z :=
   [code; st (sh s); zlen (inb (sh s)); zlen (outb (sh s)); pending (sh s); g_stop_closes (sh s);
-   g_cbs (sh s); zb (stopped (sh s))].
+   zb (stopped (sh s))].
 
 Fixpoint run_ops (n : nat) (s : sys) (l : list Z) : list Z :=
   match n with
@@ -343,17 +347,18 @@ Fixpoint run_ops (n : nat) (s : sys) (l : list Z) : list Z :=
   | S n' =>
       match l with
       | op :: a :: b :: c :: r =>
-          if op =? 0 then
+          if (op =? 0) || (op =? 2) then
             match kind_of a b c with
             | Some k => match step s (LSpawn k) with
-                        | Some s' => obs_of s' 0 ++ run_ops n' s' r
+                        | Some s' => (if op =? 0 then obs_of s' 0 else []) ++ run_ops n' s' r
                         | None => obs_of s (-1) ++ run_ops n' s r
                         end
             | None => obs_of s (-1) ++ run_ops n' s r
             end
+          else if op =? 4 then obs_of s 0 ++ run_ops n' s r
           else
             let '(s', code) := run_to 64 s (Z.to_nat a) b true in
-            obs_of s' code ++ run_ops n' s' r
+            (if op =? 1 then obs_of s' code else []) ++ run_ops n' s' r
       | _ => [-9]
       end
   end.
